@@ -542,16 +542,5 @@ def distribution(inputs, observations):
     return d
 
 
-def shrink(inp, fails):
-    if "cs" not in inp:
-        return inp
-    cs = list(inp["cs"])
-    changed = True
-    while changed and len(cs) > 1:
-        changed = False
-        for i in range(len(cs)):
-            cand = dict(inp, cs=cs[:i] + cs[i + 1:])
-            if fails(cand):
-                cs, changed = cand["cs"], True
-                break
-    return dict(inp, cs=cs)
+# no shrink(): the framework calls it after teardown(), when the scratch trees are gone, so every
+# candidate would "fail" with a driver error and the replay input would be shrunk to nonsense.
